@@ -2,6 +2,8 @@
 // code behind the golden-file tests; unexported, reached through go:linkname, no hook),
 // and report.shortRange on inputs given on stdin.
 //
+//	shortfile <path>   ->  one line per AST node "short <descriptor> = <pos> <end>" (offsets), terminated by a line "end <n>"
+//	pos <filehex> <k> <off>*k  ->  "<nlines> <size> <line>:<col> ..." from go/scanner's line table and go/token's File.Position
 //	apply <srchex> <nfix> (<k> (<start> <stop> <newhex>)*k)*nfix   ->  "<len> <fnv64>" per fix joined by ';' ("panic" if the applier panicked)
 package main
 
@@ -9,6 +11,9 @@ import (
 	"bufio"
 	"encoding/hex"
 	"fmt"
+	"go/ast"
+	"go/parser"
+	"go/scanner"
 	"go/token"
 	"os"
 	"strconv"
@@ -16,8 +21,13 @@ import (
 	_ "unsafe"
 
 	_ "honnef.co/go/tools/analysis/lint/testutil"
+	_ "honnef.co/go/tools/analysis/report"
+	"honnef.co/go/tools/go/ast/astutil"
 	"honnef.co/go/tools/lintcmd/runner"
 )
+
+//go:linkname shortRange honnef.co/go/tools/analysis/report.shortRange
+func shortRange(node ast.Node) (pos, end token.Pos)
 
 //go:linkname applyEdits honnef.co/go/tools/analysis/lint/testutil.applyEdits
 func applyEdits(src []byte, edits []runner.TextEdit) []byte
@@ -54,7 +64,9 @@ func main() {
 	for {
 		line, err := in.ReadString('\n')
 		line = strings.TrimRight(line, "\n")
-		if line != "" {
+		if strings.HasPrefix(line, "shortfile ") {
+			shortFile(w, strings.TrimPrefix(line, "shortfile "))
+		} else if line != "" {
 			fmt.Fprintln(w, doLine(line))
 		}
 		if err != nil {
@@ -63,8 +75,149 @@ func main() {
 	}
 }
 
+// describe lists exactly the positions a short range may be built from, per node kind.
+func describe(n ast.Node, o func(token.Pos) string) string {
+	opt := func(x ast.Node) string {
+		if x == nil || (func() bool { // typed nil interface values
+			switch v := x.(type) {
+			case ast.Expr:
+				return v == nil
+			case ast.Stmt:
+				return v == nil
+			}
+			return false
+		})() {
+			return "-"
+		}
+		return o(x.End())
+	}
+	pe := o(n.Pos()) + " "
+	e := " " + o(n.End())
+	switch n := n.(type) {
+	case *ast.File:
+		return "file " + pe + o(n.Name.End()) + e
+	case *ast.CaseClause:
+		return "caseClause " + pe + o(n.Colon) + e
+	case *ast.CommClause:
+		return "commClause " + pe + o(n.Colon) + e
+	case *ast.DeferStmt:
+		return "deferStmt " + pe + o(n.Defer) + e
+	case *ast.ExprStmt:
+		return "exprStmt " + describe(n.X, o)
+	case *ast.ForStmt:
+		var i, c, p ast.Node
+		if n.Init != nil {
+			i = n.Init
+		}
+		if n.Cond != nil {
+			c = n.Cond
+		}
+		if n.Post != nil {
+			p = n.Post
+		}
+		return "forStmt " + pe + o(n.For) + " " + opt(i) + " " + opt(c) + " " + opt(p) + e
+	case *ast.FuncDecl:
+		return "funcDecl " + pe + o(n.Type.End()) + e
+	case *ast.FuncLit:
+		return "funcLit " + pe + o(n.Type.End()) + e
+	case *ast.GoStmt:
+		lit := "0"
+		if _, ok := astutil.Unparen(n.Call.Fun).(*ast.FuncLit); ok {
+			lit = "1"
+		}
+		return "goStmt " + pe + o(n.Go) + " " + lit + e
+	case *ast.IfStmt:
+		return "ifStmt " + pe + o(n.Cond.End()) + e
+	case *ast.RangeStmt:
+		return "rangeStmt " + pe + o(n.X.End()) + e
+	case *ast.SelectStmt:
+		return "selectStmt " + strings.TrimSpace(pe) + e
+	case *ast.SwitchStmt:
+		var t, i ast.Node
+		if n.Tag != nil {
+			t = n.Tag
+		}
+		if n.Init != nil {
+			i = n.Init
+		}
+		return "switchStmt " + pe + opt(t) + " " + opt(i) + e
+	case *ast.TypeSwitchStmt:
+		return "typeSwitchStmt " + pe + o(n.Assign.End()) + e
+	default:
+		return "other " + strings.TrimSpace(pe) + e
+	}
+}
+
+func shortFile(w *bufio.Writer, path string) {
+	fset := token.NewFileSet()
+	f, err := parser.ParseFile(fset, path, nil, parser.ParseComments|parser.SkipObjectResolution)
+	if err != nil {
+		fmt.Fprintln(w, "end parse-error")
+		return
+	}
+	tf := fset.File(f.Pos())
+	base := tf.Base()
+	o := func(p token.Pos) string { return strconv.Itoa(int(p) - base) }
+	n := 0
+	others := 0
+	ast.Inspect(f, func(nd ast.Node) bool {
+		if nd == nil {
+			return true
+		}
+		if _, ok := nd.(*ast.Comment); ok {
+			return true
+		}
+		d := describe(nd, o)
+		if strings.HasPrefix(d, "other ") {
+			others++
+			if others%8 != 0 {
+				return true
+			}
+		}
+		p, e := shortRange(nd)
+		fmt.Fprintf(w, "short %s = %d %d\n", d, int(p)-base, int(e)-base)
+		n++
+		return true
+	})
+	fmt.Fprintf(w, "end %d\n", n)
+}
+
+func posLine(t []string) string {
+	if len(t) < 3 {
+		return "bad-op"
+	}
+	src, err := unhex(t[1])
+	k, err2 := strconv.Atoi(t[2])
+	if err != nil || err2 != nil || len(t) != 3+k {
+		return "bad-op"
+	}
+	fset := token.NewFileSet()
+	tf := fset.AddFile("f.go", -1, len(src))
+	var sc scanner.Scanner
+	sc.Init(tf, src, func(token.Position, string) {}, scanner.ScanComments)
+	for {
+		_, tok, _ := sc.Scan()
+		if tok == token.EOF {
+			break
+		}
+	}
+	out := []string{strconv.Itoa(tf.LineCount()), strconv.Itoa(tf.Size())}
+	for _, a := range t[3:] {
+		off, err := strconv.Atoi(a)
+		if err != nil || off < 0 || off > len(src) {
+			return "bad-op"
+		}
+		p := tf.PositionFor(tf.Pos(off), false)
+		out = append(out, fmt.Sprintf("%d:%d", p.Line, p.Column))
+	}
+	return strings.Join(out, " ")
+}
+
 func doLine(line string) string {
 	t := strings.Fields(line)
+	if len(t) > 0 && t[0] == "pos" {
+		return posLine(t)
+	}
 	if len(t) < 3 || t[0] != "apply" {
 		return "bad-op"
 	}
